@@ -85,7 +85,9 @@ def tx_cases(draw, tier="quick"):
     return {"grid": list(given), "lat_us": lat, "evs": evs, "markov": markov, "warm_us": warm,
             "fold": None if whole else [lo, hi],
             # optionally a fixed-length episode whose start is sampled (numpy seed from the case)
-            "episode_length": draw(st.sampled_from([None, None, 2, 3, 4])), "np_seed": draw(st.integers(0, 2 ** 20))}
+            "episode_length": draw(st.sampled_from([None, None, 2, 3, 4])), "np_seed": draw(st.integers(0, 2 ** 20)),
+            # how many of the given timesteps are handed over later (add_timesteps), after the events were added
+            "added_later": draw(st.sampled_from([0, 0, 1, 2, 3]))}
 
 
 def tx_model(case):
@@ -110,9 +112,14 @@ def run_tx(case):
     res = Result()
     grid, ev, steps, undeliverable = tx_model(case)
     folds = {"f": [E.dt(case["fold"][0]), E.dt(case["fold"][1])]} if case["fold"] else None
-    tr = Transmitter([E.dt(g) for g in case["grid"]], folds=folds, markov_reset=case["markov"],
+    later = min(case.get("added_later", 0), len(case["grid"]) - 1)
+    first = case["grid"][: len(case["grid"]) - later]
+    tr = Transmitter([E.dt(g) for g in first], folds=folds, markov_reset=case["markov"],
                      warmup=timedelta(microseconds=case["warm_us"]) if case["warm_us"] else None)
     tr.add_events([E.Ping(E.dt(s), i) for i, s in enumerate(case["evs"])])
+    if later:
+        tr.add_timesteps([E.dt(g) for g in case["grid"][len(case["grid"]) - later:]])
+        res.tag("timesteps-added-after-the-events")
     tr._create_partitions(timedelta(microseconds=case["lat_us"]).total_seconds())
     fold = "f" if folds else "training-set"
     stats = {"latent": 0, "history": 0}
